@@ -1,5 +1,5 @@
 (* C17 - Reported peak T3 rate brackets the true peak within one jerk increment.  Statements only. *)
-From Plotink Require Import Base.Prelude Spec.Firmware Model.EbbCalc Proofs.PeakProofs.
+From Plotink Require Import Base.Prelude Spec.Firmware Model.EbbCalc Proofs.PeakProofs Corr.C17 Proofs.PeakOracle.
 Open Scope Z_scope.
 
 (* never exceeds the true peak: the reported value is the absolute rate of some tick 1..T *)
@@ -22,6 +22,13 @@ Theorem C17_limit : forall (T k : nat) rate accel jerk, (1 <= k <= T)%nat ->
   Z.abs (t3_spec_rate k rate accel jerk) <= M31 + Z.abs jerk.
 Proof. exact limit_consequence. Qed.
 
+(* the O(1) peak with which the correspondence run judges the implementation's outputs (Corr/C17.v) is the true peak:
+   an upper bound of every tick's absolute rate, attained at a tick of the move *)
+Theorem C17_oracle_is_peak : forall (T : nat) rate accel jerk, (1 <= T)%nat ->
+  (forall k, (1 <= k <= T)%nat -> Z.abs (t3_spec_rate k rate accel jerk) <= t3_peak (Z.of_nat T) rate accel jerk) /\
+  (exists k, (1 <= k <= T)%nat /\ t3_peak (Z.of_nat T) rate accel jerk = Z.abs (t3_spec_rate k rate accel jerk)).
+Proof. exact t3_peak_is_spec_peak. Qed.
+
 (* non-vacuity: the |jerk| slack is attained: T=4, rate -6, accel -8, jerk 4 reports 10, ticks 2 and 3 run at 14 *)
 Example C17_tight : max_rate_t3 4 (-6) (-8) 4 = 10 /\ Z.abs (t3_spec_rate 2 (-6) (-8) 4) = 14 /\ Z.abs (t3_spec_rate 1 (-6) (-8) 4) = 10.
 Proof. repeat split; vm_compute; reflexivity. Qed.
@@ -30,3 +37,4 @@ Print Assumptions C17_is_a_tick.
 Print Assumptions C17_ends.
 Print Assumptions C17_within_jerk.
 Print Assumptions C17_limit.
+Print Assumptions C17_oracle_is_peak.
